@@ -1719,6 +1719,49 @@ def rule_locals_defined(ctx, rep: Report, rid="U1", packages=("gtwrap/",), min_f
     rep.add(rid, "defined-before-use:functions analysed", True, f"{n} functions", "", nontrivial=False)
     if n < min_functions:
         raise AnalysisError(f"{rep.prop}/{rid}: only {n} functions analysed")
+    # attributes: every `self.X` that a method reads is stored by some method of the class, one of its bases or one of
+    # its subclasses (mixins read what the final class stores), or is a class-level name (AttributeError otherwise)
+    all_classes = [ci for mi in prog.modules.values() for ci in mi.classes.values()]
+
+    def stored(ci):
+        s = set()
+        for x in ast.walk(ci.node):
+            if isinstance(x, ast.Attribute) and isinstance(x.ctx, ast.Store) and isinstance(x.value, ast.Name) and x.value.id == "self":
+                s.add(x.attr)
+            if isinstance(x, ast.Call) and unparse(x.func) == "setattr" and x.args and unparse(x.args[0]) == "self":
+                s.add("*")
+        for st in ci.node.body:
+            if isinstance(st, (ast.FunctionDef, ast.ClassDef)):
+                s.add(st.name)
+            elif isinstance(st, ast.Assign):
+                s |= {t.id for t in st.targets if isinstance(t, ast.Name)}
+            elif isinstance(st, ast.AnnAssign) and isinstance(st.target, ast.Name):
+                s.add(st.target.id)
+        return s
+    for mi in sorted(prog.modules.values(), key=lambda m: m.rel):
+        if not mi.rel.startswith(packages):
+            continue
+        for q, ci in sorted(mi.classes.items()):
+            known = set()
+            opaque = False
+            for k in prog.mro(ci):
+                known |= stored(k)
+                opaque |= any(prog.resolve_class(b, k.mod) is None and unparse(b) != "object" for b in k.node.bases)
+            for other in all_classes:
+                if other is not ci and prog.is_subclass(other, ci):
+                    for k in prog.mro(other):
+                        known |= stored(k)
+            if opaque or "*" in known:
+                continue
+            missing = {}
+            for x in ast.walk(ci.node):
+                if isinstance(x, ast.Attribute) and isinstance(x.ctx, ast.Load) and isinstance(x.value, ast.Name) and x.value.id == "self" \
+                        and x.attr not in known and not (x.attr.startswith("__") and x.attr.endswith("__")):
+                    missing.setdefault(x.attr, x)
+            rep.add(rid, f"attributes-initialised:{q}", not missing,
+                    f"{sorted(missing)} read through `self` but stored by no method of the class, its bases or its subclasses "
+                    f"(e.g. the initialisation was dropped from __init__): AttributeError on the first input that reaches the read",
+                    f"{mi.rel}:{min((x.lineno for x in missing.values()), default=ci.node.lineno)}", nontrivial=bool(missing))
 
 
 def rule_namespace_path_lookup(ctx, rep: Report, rid="V6"):
